@@ -248,23 +248,11 @@ class DualVigilanceART(BaseART):
         """
         assert isinstance(cache, dict)
         assert isinstance(params, dict)
-        M = cache["match_criterion"]
-        if method == "MT+":
-            self.base_module.params["rho"] = M + epsilon
-            return True
-        elif method == "MT-":
-            self.base_module.params["rho"] = M - epsilon
-            return True
-        elif method == "MT0":
-            self.base_module.params["rho"] = M
-            return True
-        elif method == "MT1":
-            self.base_module.params["rho"] = np.inf
-            return False
-        elif method == "MT~":
-            return True
-        else:
-            raise ValueError(f"Invalid Match Tracking Method: {method}")
+        # the base module knows in which direction its vigilance tightens
+        # (BayesianART's test is inverted)
+        return self.base_module._match_tracking(
+            cache, epsilon, self.base_module.params, method
+        )
 
     def _set_params(self, new_params):
         self.base_module.params = new_params
